@@ -4,6 +4,9 @@ import GeoVerif.Proofs.Digits
 import GeoVerif.Proofs.GeohashBits
 import GeoVerif.Proofs.GeohashScale
 import GeoVerif.Proofs.GeorefLoop
+import GeoVerif.Proofs.OSGBInt
+import GeoVerif.Proofs.OSGBScale
+import GeoVerif.Gen.OSGBC
 import GeoVerif.Props.C16
 /-!
 # C18 — property theorems (grid codes), integer level
@@ -1332,6 +1335,150 @@ theorem geohash_cell_contains (lat lon : F64) (h1 : F64.gt (F64.abs lat) MathF.q
     rw [this]
 
 end GeohashCell
+
+/-! ### OSGB grid references: the integer codec (all inputs), the floating part (all inputs), constants of the projection -/
+section OSGB
+open OSGBInt OSGBScale F64
+
+/-- **`decode∘encode`, OSGB** (every 100 km square of the grid, every pair of digit indices, every precision `≤ 11`):
+the decoder returns the square, the precision and the `p` decimal digits of the combined in-tile indices
+`i1·10^(p−5) + i2` (`OSGBInt.cellIndex`; their value is `osgb_decoded_value`) -/
+theorem osgb_decode_encode (sx sy : OSGB.Sc) (p : ℕ) (hp : p ≤ 11) (hx : -10 ≤ sx.h ∧ sx.h < 15) (hy : -5 ≤ sy.h ∧ sy.h < 20)
+    (h2x : sx.i2.toNat < 10 ^ (p - 5)) (h2y : sy.i2.toNat < 10 ^ (p - 5)) :
+    OSGB.decodeInt (toBytes (OSGB.encodeInt sx sy p)) =
+      .ok ⟨sx.h, sy.h, natDigits p (cellIndex sx p), natDigits p (cellIndex sy p), p⟩ := by
+  rw [encodeInt_eq_cell sx sy p h2x h2y]
+  exact decode_encodeCell sx.h sy.h _ _ p hp hx hy
+
+/-- the decoded digit list has the value of the index modulo `10^p` (so: the index itself when it is `< 10^p`) -/
+theorem osgb_decoded_value (p X : ℕ) : digitsVal (natDigits p X) = X % 10 ^ p := digitsVal_natDigits p X
+
+/-- **prefix law, OSGB** (integer level, every square and precision): letters + easting digits of the parent square's
+reference are a prefix of the finer reference; its northing digits are a prefix of the finer northing digits -/
+theorem osgb_prefix (xh yh : ℤ) (X Y p : ℕ) :
+    (encodeCell xh yh (X / 10) (Y / 10) p).take (2 + p) <+: encodeCell xh yh X Y (p + 1) ∧
+    (encodeCell xh yh (X / 10) (Y / 10) p).drop (2 + p) <+: (encodeCell xh yh X Y (p + 1)).drop (2 + (p + 1)) :=
+  encodeCell_prefix xh yh X Y p
+
+/-- **re-encode law, OSGB** (integer level, every accepted string): the reference of the decoded square at the decoded
+precision is the input upper-cased with white space removed -/
+theorem osgb_reencode (s : List ℕ) (d : OSGB.Dec) (h : OSGB.decodeInt s = .ok d) :
+    toBytes (encodeCell d.xh d.yh (digitsVal d.xd) (digitsVal d.yd) d.prec) = (s.filter (fun c => !OSGB.isSpace c)).map upper :=
+  reencode s d h
+
+/-- the decoded square is one of the 25 × 25 squares of the grid and the precision is at most 11 -/
+theorem osgb_decoded_range (s : List ℕ) (d : OSGB.Dec) (h : OSGB.decodeInt s = .ok d) :
+    -10 ≤ d.xh ∧ d.xh < 15 ∧ -5 ≤ d.yh ∧ d.yh < 20 ∧ d.prec ≤ 11 ∧ d.xd.length = d.prec ∧ d.yd.length = d.prec := by
+  obtain ⟨i, j, hlen, hp, hi, hj, hxh, hyh, hx, hy⟩ := decodeInt_ok s d h
+  obtain ⟨_, i25, _⟩ := lookup_some_spec OSGB.letters _ i hi
+  obtain ⟨_, j25, _⟩ := lookup_some_spec OSGB.letters _ j hj
+  have l25 : OSGB.letters.length = 25 := by decide
+  rw [l25] at i25 j25
+  obtain ⟨a, b, c, e⟩ := letterStep_range i j i25 j25
+  obtain ⟨ex, _⟩ := readDigits_spec _ _ hx
+  obtain ⟨ey, _⟩ := readDigits_spec _ _ hy
+  have lx := congrArg List.length ex
+  have ly := congrArg List.length ey
+  rw [List.length_map, List.length_take, List.length_drop] at lx
+  rw [List.length_map, List.length_drop] at ly
+  rw [hxh, hyh]
+  exact ⟨a, b, c, e, hp, by omega, by omega⟩
+
+/-- **`osgb_accept_iff`**: `ReadGridReference` (after the "IN…" test) accepts exactly the strings that, with white space
+removed, have even length in `[2, 24]`, begin with two letters `A–Z` other than `I` (either case) and continue with decimal
+digits only; everything else is rejected with the library's exception -/
+theorem osgb_accept_iff (s : List ℕ) :
+    (∃ d, OSGB.decodeInt s = .ok d) ↔
+      (let g := s.filter (fun c => !OSGB.isSpace c)
+       2 ≤ g.length ∧ g.length ≤ 24 ∧ g.length % 2 = 0 ∧ isLetter (g.getD 0 0) = true ∧ isLetter (g.getD 1 0) = true ∧
+       ∀ c ∈ g.drop 2, isDigit c = true) :=
+  accept_iff s
+
+/-- `GridReference(string)`: "IN…" (either case) gives NaN; otherwise the outcome (exception or values, precision) is that
+of the integer decoder followed by the floating accumulation -/
+theorem osgb_reverse_shape (s : List ℕ) (cp : Bool) :
+    OSGB.reverse s cp =
+      if s.length ≥ 2 && upper (s.getD 0 0) = 73 && upper (s.getD 1 0) = 78 then .ok .nan
+      else match OSGB.decodeInt s with
+        | .error e => .error e
+        | .ok d => .ok (.val (OSGB.reverseVal d cp).1 (OSGB.reverseVal d cp).2 d.prec) := by
+  unfold OSGB.reverse
+  by_cases h : (s.length ≥ 2 && upper (s.getD 0 0) = 73 && upper (s.getD 1 0) = 78) = true
+  · simp only [h, if_true]; rfl
+  · simp only [h, Bool.false_eq_true, if_false]
+    cases OSGB.decodeInt s <;> rfl
+
+/-- **decoding is case-insensitive** (OSGB) -/
+theorem osgb_case_insensitive (s : List ℕ) : OSGB.decodeInt (s.map upper) = OSGB.decodeInt s := decodeInt_upper s
+
+/-- **`osgb_scale_spec`** — the floating part of `GridReference(x, y, prec)` for one coordinate, every finite
+`x = ±m·2^e` (`m < 2^53`, `−1074 ≤ e ≤ 0`), `|x| ≤ 10^7` m, every precision `p ≤ 11`; `n = ⌊x/10^5⌋` exactly.
+Either (class U) the quotient `x/10^5` underflows to `−0` — `n = −1`, `|x| ≤ 10^5·2^(−1075)` — and the code is tile 0,
+digits 0: the adjoining square; or the tile index is exact and the computed in-tile offset `t'` is
+
+* the exact offset `x − 10^5·n`, or
+* only for `n = −1`, `−50 km < x < 0`: the correctly rounded sum `x + 10^5` (`IsRN`, error `≤ 2^(−37)` m) — class G18-2,
+  and `t' = 10^5` itself for `−2^(−37) ≤ x` — class G18-1, theorem `osgb_offset_wrap`;
+
+and the digit indices are: for `p ≤ 5` exactly `i1 = ⌊t'/10^(5−p)⌋` (no rounding effect at all: `divFloor_nosliver`),
+for `p > 5` `i1 = ⌊t'⌋` exactly, the fractional part `t' − ⌊t'⌋` exactly, and `i2` from **one** rounded multiplication
+`frac·10^(p−5)` followed by `floor` — `CellRelQ`: the exact index, or the next one when the rounded product is that
+integer (class F2). -/
+theorem osgb_scale_spec (s : Bool) (m : ℕ) (e : ℤ) (hm : m < 2 ^ 53) (he1 : -1074 ≤ e) (he0 : e ≤ 0) (p : ℕ) (hp : p ≤ 11)
+    (hb : |(F64.fin s m e).val| ≤ 10 ^ 7) (n : ℤ)
+    (hn1 : (n:ℚ) ≤ (F64.fin s m e).val / 100000) (hn2 : (F64.fin s m e).val / 100000 < (n:ℚ) + 1) :
+    let x := F64.fin s m e
+    let sc := OSGB.scaleCoord x p
+    (n = -1 ∧ -(x.val / 100000) ≤ (2:ℚ) ^ (-(1075:ℤ)) ∧ sc = ⟨0, 0, 0⟩) ∨
+    (sc.h = n ∧ ∃ t' : ℚ, OffsetRel x.val n t' ∧ 0 ≤ t' ∧ t' ≤ 100000 ∧
+      ∃ pv : ℚ, DigitRel t' p sc.i1 sc.i2 pv) :=
+  scaleCoord_spec s m e hm he1 he0 p hp hb n hn1 hn2
+
+/-- **the coded square is the square that contains the position** — down to 1 m (`p ≤ 5`), every tile except the part
+`−50 km < x < 0` of tile `−1`, and not the underflow sliver: tile index and digit index are the exact floors -/
+theorem osgb_contains_le5 (s : Bool) (m : ℕ) (e : ℤ) (hm : m < 2 ^ 53) (he1 : -1074 ≤ e) (he0 : e ≤ 0) (p : ℕ) (hp : p ≤ 5)
+    (hb : |(F64.fin s m e).val| ≤ 10 ^ 7) (n : ℤ)
+    (hn1 : (n:ℚ) ≤ (F64.fin s m e).val / 100000) (hn2 : (F64.fin s m e).val / 100000 < (n:ℚ) + 1)
+    (htile : n ≠ -1 ∨ (F64.fin s m e).val ≤ -50000) :
+    OSGB.scaleCoord (F64.fin s m e) p = ⟨n, ⌊((F64.fin s m e).val - 100000 * n) / 10 ^ (5 - p)⌋, 0⟩ := by
+  rcases scaleCoord_spec s m e hm he1 he0 p (by omega) hb n hn1 hn2 with ⟨hn, hU, _⟩ | ⟨hh, t', hrel, _, _, pv, hd, _⟩
+  · -- the underflow class needs −50 km < x
+    exfalso
+    rcases htile with h | h
+    · exact h hn
+    · have hC : (2:ℚ) ^ (-(1075:ℤ)) < 1/4 := by
+        have h2 : (2:ℚ) ^ (-(1075:ℤ)) < (2:ℚ) ^ (-(2:ℤ)) := Dy.two_zpow_lt_iff.mpr (by norm_num)
+        have e2 : (2:ℚ) ^ (-(2:ℤ)) = 1/4 := by rw [zpow_neg]; norm_num
+        rw [e2] at h2; exact h2
+      have : (F64.fin s m e).val / 100000 ≤ -(1/2) := by
+        rw [div_le_iff₀ (by norm_num)]; linarith
+      linarith
+  · have ht : t' = (F64.fin s m e).val - 100000 * n := by
+      rcases hrel with h | ⟨h1, h2, _⟩
+      · exact h
+      · exfalso
+        rcases htile with h | h
+        · exact h h1
+        · linarith
+    obtain ⟨a, b⟩ := hd hp
+    rw [ht] at a
+    cases hsc : OSGB.scaleCoord (F64.fin s m e) p with
+    | mk h i1 i2 =>
+      rw [hsc] at hh a b
+      simp only [] at hh a b
+      rw [hh, a, b]
+
+/-- **class G18-1 as a theorem**: for `−2^(−37) ≤ x < 0` whose quotient by the tile does not underflow to `−0`, tile
+`−1` is selected and the computed offset is the tile size `10^5` itself: `i1 = 10^min(p,5)`, whose `min(p,5)` low digits —
+the ones the digit loop writes — are all 0, and `i2 = 0`.  The reference names the south-west square of the tile to the
+west/south (finding G18-1). -/
+theorem osgb_offset_wrap (s : Bool) (m : ℕ) (e : ℤ) (hm : m < 2 ^ 53) (he1 : -1074 ≤ e) (he0 : e ≤ 0) (p : ℕ) (hp : p ≤ 11)
+    (h1 : -(2:ℚ) ^ (-(37:ℤ)) ≤ (F64.fin s m e).val) (h2 : (F64.fin s m e).val < 0)
+    (hnu : (2:ℚ) ^ (-(1075:ℤ)) < -((F64.fin s m e).val / 100000)) :
+    OSGB.scaleCoord (F64.fin s m e) p = ⟨-1, 10 ^ (min p 5), 0⟩ :=
+  scaleCoord_wrap s m e hm he1 he0 p hp h1 h2 hnu
+
+end OSGB
 
 /-! ### non-vacuity: concrete codes -/
 example : String.ofList (GARS.encodeInt (4320 / 2 + 7) (2160 / 2 + 5) 2) = "362HN12" := by decide
